@@ -11,9 +11,10 @@ variable {U π : Type} [DecidableEq U]
 /-- programs currently in the heap of `nt` -/
 def St.heapProgs (s : St U π) (nt : UNT U) : List Prog := (s.heapOf nt).map (·.2)
 
-/-- `__add_successors__(program, S)` leaves `succ[S]` alone (no re-entrant `query(S, ·)`) -/
+/-- `__add_successors__(program, S)` leaves `succ[S]` alone (no re-entrant `query(S, ·)`),
+    from a sound state -/
 def NoReent (E : Env U π) : Prop :=
-  ∀ prog nt s s' x, Big E (.addSucc prog nt) s s' x → s'.succOf nt = s.succOf nt
+  ∀ prog nt s s' x, SInv E s → Big E (.addSucc prog nt) s s' x → s'.succOf nt = s.succOf nt
 
 /-- **no-duplicate invariant** -/
 structure NInv (E : Env U π) (s : St U π) : Prop where
